@@ -175,6 +175,66 @@ CATALOGUE = [
 ]
 
 
+def param_facts(view, n):
+  """{param: required truth value} from plain tests on parameters that
+  dominate node n."""
+  out = {}
+  params = set(view.fi.params)
+  for e, val in view.guards(n):
+    if isinstance(e, ast.Name) and e.id in params:
+      out[e.id] = val
+  return out
+
+
+def call_bindings(repo, callee_fi):
+  """[{param: constant or None-if-unknown}] for every call site of callee in
+  the pipeline (defaults filled in)."""
+  fn = callee_fi.node
+  params = [a.arg for a in fn.args.posonlyargs + fn.args.args]
+  defaults = dict(zip(params[len(params) - len(fn.args.defaults):], fn.args.defaults))
+  is_method = callee_fi.cls is not None
+  out = []
+  for m in repo.pipeline():
+    for fi in m.funcs.values():
+      for c in walk_local(fi.node):
+        if isinstance(c, ast.Call) and call_tail(c) == callee_fi.name and \
+            callee_fi.fq in repo.resolve(fi, c):
+          ps = params[1:] if is_method and isinstance(c.func, ast.Attribute) else params
+          b = {}
+          for p_ in ps:
+            d = defaults.get(p_)
+            b[p_] = d.value if isinstance(d, ast.Constant) else '?'
+          for i, a in enumerate(c.args):
+            if i < len(ps):
+              b[ps[i]] = a.value if isinstance(a, ast.Constant) else '?'
+          for k in c.keywords:
+            if k.arg:
+              b[k.arg] = k.value.value if isinstance(k.value, ast.Constant) else '?'
+          out.append((fi, c, b))
+  return out
+
+
+def reachable_by_some_caller(repo, view, n):
+  """Is there a call site whose constant arguments are consistent with the
+  parameter tests guarding node n?  (no call sites at all -> True)"""
+  need = param_facts(view, n)
+  if not need:
+    return True, ''
+  sites = call_bindings(repo, view.fi)
+  if not sites:
+    return True, ''
+  for fi, c, b in sites:
+    ok = True
+    for p_, val in need.items():
+      v = b.get(p_, '?')
+      if v != '?' and bool(v) != val:
+        ok = False
+    if ok:
+      return True, ''
+  return False, 'needs %s but the call sites pass %s' % (
+      need, [{k: v for k, v in b.items() if k in need} for _, _, b in sites])
+
+
 def must_call(chk, rid, caller, callee, why, after=None, arg_check=None):
   """Every normal path through `caller` calls `callee`."""
   v = FnView(chk.repo, caller)
@@ -197,6 +257,20 @@ def run(chk):
   for label, fq, typ, mentions, pol, least in CATALOGUE:
     v = FnView(repo, fq)
     hits = guarded_sites(repo, v, typ, mentions, pol)
+    live_hits = []
+    dead_why = ''
+    for n, node in hits:
+      ok, why = reachable_by_some_caller(repo, v, n)
+      if ok:
+        live_hits.append((n, node))
+      else:
+        dead_why = why
+    if len(hits) >= least and len(live_hits) < least:
+      chk.ob('C19-R1', False, None, 'detects %s -> %s' % (label, typ),
+             'the detection site exists but no caller can reach it: it %s' % dead_why,
+             fi=v.fi, node=hits[0][1])
+      continue
+    hits = live_hits
     chk.ob('C19-R1', len(hits) >= least, None,
            'detects %s -> %s' % (label, typ),
            'no `raise %s` guarded by a test over %s is left in %s: this class '
